@@ -920,111 +920,6 @@ Proof.
     rewrite Hroot, P in F. cbn [length skipn] in F. exists r'. split; [exact F | now rewrite P'].
 Qed.
 
-(* ================================================================ Part B : uniqueness is FALSE
-   Two nodes with the same pattern text can exist in a reachable tree, both can carry handlers,
-   a duplicate pattern+method is then accepted, and a removal leaves the route alive.
-   The history: "/{a" (a literal: no closing brace), then "/{a{b}x" and "/{a{c}y".  The two
-   parameter labels "{a{b}x" / "{a{c}y" differ inside the braces, longestPrefix answers the
-   position of the LAST '{' seen (2), the node is split into the literal "{a" + "{b}x", and the
-   new literal "{a" becomes a sibling of the old literal "{a" (literal vs parameter: similarity 0
-   when the second pattern was added). *)
-Definition cx_p : bytes := bs "/{a".
-Definition cx_hist3 : list top :=
-  [OAdd cx_p (HUser (bs "h1")) [] [GET];
-   OAdd (bs "/{a{b}x") (HUser (bs "h2")) [] [GET];
-   OAdd (bs "/{a{c}y") (HUser (bs "h3")) [] [GET]].
-Definition cx_hist4 : list top := cx_hist3 ++ [OAdd cx_p (HUser (bs "h4")) [] [GET]].
-Definition cx_tree3 : tree := fold_left tstep cx_hist3 (new_tree (bs "r") [] false).
-Definition cx_tree4 : tree := fold_left tstep cx_hist4 (new_tree (bs "r") [] false).
-Definition cx_tree5 : tree := keep cx_tree4 (tree_remove cx_tree4 cx_p []).
-
-(* the node "/" and its first two children, in a tree *)
-Definition cx_slash (t : tree) : node := nth 0 (nchildren (troot t)) (troot t).
-Definition cx_first (t : tree) : node := nth 0 (nchildren (cx_slash t)) (troot t).
-Definition cx_second (t : tree) : node := nth 1 (nchildren (cx_slash t)) (troot t).
-
-Lemma cx_desc : forall t, (0 < length (nchildren (troot t)))%nat ->
-  (1 < length (nchildren (cx_slash t)))%nat ->
-  desc (troot t) (cx_first t) /\ desc (troot t) (cx_second t).
-Proof.
-  intros t H0 H1. assert (Is : In (cx_slash t) (nchildren (troot t))) by (now apply nth_In).
-  split; apply (desc_step _ (cx_slash t)); try exact Is; apply desc_child; apply nth_In; lia.
-Qed.
-
-Example cx_two_nodes_one_pattern :
-  npat (cx_first cx_tree3) = cx_p /\ npat (cx_second cx_tree3) = cx_p /\
-  nhandlers (cx_first cx_tree3) = [] /\ ahas GET (nhandlers (cx_second cx_tree3)) = true /\
-  cnt (pat_is cx_p) (troot cx_tree3) = 2%nat.
-Proof. vm_compute. repeat split. Qed.
-
-Theorem C03_pattern_once_refuted :
-  ~ (forall name ic trace hist p, pattern_once p (troot (fold_left tstep hist (new_tree name ic trace)))).
-Proof.
-  intro H. specialize (H (bs "r") [] false cx_hist3 cx_p). unfold pattern_once in H.
-  vm_compute in H. lia.
-Qed.
-
-Theorem C03_pattern_unique_refuted :
-  ~ (forall name ic trace hist n1 n2, let t := fold_left tstep hist (new_tree name ic trace) in
-       desc (troot t) n1 -> desc (troot t) n2 -> npat n1 = npat n2 ->
-       nhandlers n1 <> [] -> nhandlers n2 <> [] ->
-       nhandlers n1 = nhandlers n2 /\ nmidx n1 = nmidx n2).
-Proof.
-  intro H.
-  assert (D : desc (troot cx_tree4) (cx_first cx_tree4) /\ desc (troot cx_tree4) (cx_second cx_tree4))
-    by (apply cx_desc; vm_compute; lia).
-  destruct D as [D1 D2].
-  assert (E : npat (cx_first cx_tree4) = npat (cx_second cx_tree4)) by (vm_compute; reflexivity).
-  assert (N1 : nhandlers (cx_first cx_tree4) <> []) by (vm_compute; discriminate).
-  assert (N2 : nhandlers (cx_second cx_tree4) <> []) by (vm_compute; discriminate).
-  destruct (H (bs "r") [] false cx_hist4 _ _ D1 D2 E N1 N2) as [Hh _].
-  vm_compute in Hh. discriminate Hh.
-Qed.
-
-(* C17 by pattern: a node spelling the pattern already answers GET, the registration is accepted *)
-Theorem C17_duplicate_by_pattern_refuted :
-  ~ (forall name ic trace hist p h mws m n, let t := fold_left tstep hist (new_tree name ic trace) in
-       desc (troot t) n -> npat n = p -> ahas m (nhandlers n) = true ->
-       exists e, tree_add t p h mws [m] = Err e \/ tree_add t p h mws [m] = Unsup).
-Proof.
-  intro H.
-  assert (D : desc (troot cx_tree3) (cx_first cx_tree3) /\ desc (troot cx_tree3) (cx_second cx_tree3))
-    by (apply cx_desc; vm_compute; lia).
-  destruct D as [_ D2].
-  assert (E : npat (cx_second cx_tree3) = cx_p) by (vm_compute; reflexivity).
-  assert (G : ahas GET (nhandlers (cx_second cx_tree3)) = true) by (vm_compute; reflexivity).
-  destruct (H (bs "r") [] false cx_hist3 cx_p (HUser (bs "h4")) [] GET _ D2 E G) as [e [He|He]];
-    vm_compute in He; discriminate He.
-Qed.
-
-(* C03 by pattern: "/{a" is removed with every method, a node spelling "/{a" still answers GET *)
-Lemma cx_remove_ok : tree_remove cx_tree4 cx_p [] = Ok cx_tree5.
-Proof.
-  unfold cx_tree5. destruct (tree_remove cx_tree4 cx_p []) as [t'| | |] eqn:E;
-    [reflexivity | vm_compute in E; discriminate E ..].
-Qed.
-
-Theorem C03_remove_all_clears_refuted :
-  ~ (forall name ic trace hist p t', let t := fold_left tstep hist (new_tree name ic trace) in
-       tree_remove t p [] = Ok t' -> forall n, desc (troot t') n -> npat n = p -> nhandlers n = []).
-Proof.
-  intro H.
-  assert (D : desc (troot cx_tree5) (cx_first cx_tree5) /\ desc (troot cx_tree5) (cx_second cx_tree5))
-    by (apply cx_desc; vm_compute; lia).
-  destruct D as [_ D2].
-  assert (E : npat (cx_second cx_tree5) = cx_p) by (vm_compute; reflexivity).
-  pose proof (H (bs "r") [] false cx_hist4 cx_p cx_tree5 cx_remove_ok _ D2 E) as Hn.
-  vm_compute in Hn. discriminate Hn.
-Qed.
-
-(* what a client sees: the second registration of GET "/{a" wins, the removal of "/{a" brings
-   the first one back *)
-Example cx_dispatch :
-  (match tree_handler cx_tree3 GET cx_p [] with HFound true (Some _) h _ => h = HUser (bs "h1") | _ => False end) /\
-  (match tree_handler cx_tree4 GET cx_p [] with HFound true (Some _) h _ => h = HUser (bs "h4") | _ => False end) /\
-  (match tree_handler cx_tree5 GET cx_p [] with HFound true (Some _) h _ => h = HUser (bs "h1") | _ => False end).
-Proof. vm_compute. repeat split. Qed.
-
 (* ================================================================ examples *)
 Definition exf_hist : list top :=
   [OAdd (bs "/posts/{id}") (HUser (bs "post")) [] [GET];
